@@ -37,7 +37,10 @@ COMPONENTS = {'real': ['pyrtl.Simulation', 'pyrtl.FastSimulation', 'pyrtl.Compil
                        'VCD / print_trace / report readers written for this check']}
 
 
-class PlantedAssertion(Exception):
+from ..common import PlantedAssertion as _PA
+
+
+class PlantedAssertion(_PA):
     pass
 
 
@@ -86,6 +89,7 @@ def gen_case(streams, tier):
         'batches': [streams['sched'].randint(1, 4) for _ in range(ncyc)],
         'vcd_clock': g.random() < 0.3,
         'stage': stage,
+        'writer_fault': f.randrange(0, 30) if f.random() < 0.3 else None,
         'sched': world.gen_sched(streams),
     }
 
@@ -299,10 +303,11 @@ def run(case, res):
         for f in faults.get(ci, []):
             v = world.apply_reject(sim, f, cyc, kind)
             res.faults.hit('reject_step')
-            res.faults.hit('reject_negative' if f['value'] < 0 else 'reject_too_large')
-            res.log.log('fault', 'reject', [f['wire'], f['value'] < 0], v is None)
+            fk = 'missing' if f['value'] == 'missing' else ('negative' if f['value'] < 0 else 'too_large')
+            res.faults.hit('reject_' + fk)
+            res.log.log('fault', 'reject', [f['wire'], fk], v is None)
             if v:
-                v.tags = sorted(set(v.tags + ['negative' if f['value'] < 0 else 'too_large']))
+                v.tags = sorted(set(v.tags + [fk]))
                 return v
         raised = None
         try:
@@ -435,6 +440,24 @@ def run(case, res):
         if a != t:
             return Violation('step_multiple', 'trace_differs_from_single_steps',
                              {'wire': name, 'steps': a[:8], 'multi': t[:8]}, [kind])
+    # ---- writer fault: the file object fails on its k-th write; the trace is only read ----
+    if case.get('writer_fault') is not None:
+        before = {n: list(vs) for n, vs in sim.tracer.trace.items()}
+        for what in ('print_vcd', 'print_trace'):
+            fw = world.FaultyWriter(case['writer_fault'])
+            try:
+                if what == 'print_vcd':
+                    sim.tracer.print_vcd(fw, include_clock=case.get('vcd_clock', False))
+                else:
+                    sim.tracer.print_trace(fw, base=16, compact=False)
+            except OSError:
+                res.faults.hit('writer_fault')
+            else:
+                if fw.nwrites > case['writer_fault']:
+                    return Violation('writer_fault', 'io_error_swallowed', {'call': what}, [kind])
+            after = {n: list(vs) for n, vs in sim.tracer.trace.items()}
+            if after != before:
+                return Violation('writer_fault', 'trace_changed_by_failed_print', {'call': what}, [kind])
     # ---- text channels ----------------------------------------------------------------
     v = check_vcd(sim, case.get('vcd_clock', False), widths)
     if v:
@@ -466,6 +489,10 @@ def candidates(case):
     if case.get('assert_wire'):
         c = copy.deepcopy(case)
         c['assert_wire'] = None
+        yield c
+    if case.get('writer_fault') is not None:
+        c = copy.deepcopy(case)
+        c['writer_fault'] = None
         yield c
     if case.get('wrong_cells'):
         c = copy.deepcopy(case)
